@@ -48,6 +48,7 @@ type harness struct {
 	seen   map[string]int // violation class -> occurrences
 	durMu  sync.Mutex
 	durs   []time.Duration
+	kept   map[string]string // world -> directory under replays/ holding its data directory
 }
 
 type job struct {
@@ -169,8 +170,32 @@ func routeOf(q *apifix.Req) string {
 	return p
 }
 
+// keepWorld copies a world's data directory next to the replay files (signatures are randomised, so a
+// rebuilt world has other transaction ids: a request that names outputs only replays on the original)
+func (h *harness) keepWorld(name string) string {
+	h.seenMu.Lock()
+	defer h.seenMu.Unlock()
+	if d, ok := h.kept[name]; ok {
+		return d
+	}
+	dst := filepath.Join(vf.Root(), "replays", fmt.Sprintf("C28-seed%d-world-%s", h.r.Seed, name))
+	os.RemoveAll(dst)
+	_ = os.MkdirAll(filepath.Dir(dst), 0755)
+	if w := h.worlds[name]; w == nil || w.CopyTo(dst) != nil {
+		dst = ""
+	}
+	h.kept[name] = dst
+	return dst
+}
+
 // report raises a violation once per (kind, route, frame) and counts the rest
 func (h *harness) report(kind string, attrs map[string]string, witness interface{}) {
+	if m, ok := witness.(map[string]interface{}); ok && h.r.ReplayPath() == "" {
+		if j, ok := m["job"].(job); ok && h.worlds[j.World] != nil {
+			m["world_dir"] = h.keepWorld(j.World)
+			m["node_options"] = h.worlds[j.World].Opts
+		}
+	}
 	key := kind + "|" + attrs["route"] + "|" + attrs["frame"] + "|" + attrs["world"] + "|" + attrs["value_class"]
 	h.seenMu.Lock()
 	h.seen[key]++
@@ -616,7 +641,7 @@ func (h *harness) slowProbe(done chan struct{}) {
 
 func main() {
 	r := vf.Start("C28", "exploration")
-	h := &harness{r: r, worlds: map[string]*apifix.World{}, seen: map[string]int{}}
+	h := &harness{r: r, worlds: map[string]*apifix.World{}, seen: map[string]int{}, kept: map[string]string{}}
 	h.vnode = filepath.Join(os.Getenv("VERIF_BIN"), "vnodeapi")
 	if _, err := os.Stat(h.vnode); err != nil {
 		fmt.Fprintln(os.Stderr, "vnodeapi binary not found (run through ./check):", err)
@@ -633,6 +658,15 @@ func main() {
 			w.Remove()
 		}
 		os.RemoveAll(h.tmp)
+	}
+	if rep != nil && rep.Witness.WorldDir != "" && rep.Witness.Options != nil {
+		if _, err := os.Stat(rep.Witness.WorldDir); err == nil {
+			// replay on the data directory kept by the run that found the violation
+			h.worlds[rep.Witness.Job.World] = apifix.LoadWorld(rep.Witness.WorldDir, *rep.Witness.Options)
+			h.replay(rep)
+			os.RemoveAll(h.tmp)
+			return
+		}
 	}
 	for _, wc := range []apifix.WorldConfig{
 		{Tag: "main", Seed: r.SubSeed("world-main"), Blocks: 30, Wallets: true, Pool: true},
@@ -726,8 +760,10 @@ func main() {
 type replayDoc struct {
 	Seed    int64 `json:"seed"`
 	Witness struct {
-		Job     job         `json:"job"`
-		Request *apifix.Req `json:"request"`
+		Job      job           `json:"job"`
+		Request  *apifix.Req   `json:"request"`
+		WorldDir string        `json:"world_dir"`
+		Options  *node.Options `json:"node_options"`
 	} `json:"witness"`
 }
 
@@ -757,10 +793,12 @@ func (h *harness) replay(d *replayDoc) {
 	h.send(n, d.Witness.Request, "replay")
 	n.stop()
 	h.scanLog(n)
-	if h.r.Violations() > 0 || h.r.Get("observed.panic") > 0 || h.r.Get("observed.hang") > 0 {
+	if h.r.Violations() > 0 || h.r.Get("observed.panic") > 0 || h.r.Get("observed.hang") > 0 || h.r.Get("observed.node-died") > 0 {
 		fmt.Println("REPLAY property=C28 reproduced=true")
 		for _, w := range h.worlds {
-			w.Remove()
+			if strings.HasPrefix(w.Dir, os.TempDir()) {
+				w.Remove()
+			}
 		}
 		os.RemoveAll(h.tmp)
 		os.Exit(1)
